@@ -65,6 +65,9 @@ type poller struct {
 	// entails writing a single byte to the write end of the wakeupPipe.
 	posts []func()
 
+	// dispatching holds the handlers being run by dispatch; it is swapped with posts under lck.
+	dispatching []func()
+
 	// lck synchronizes access to the posts slice.
 	// This is needed because multiple goroutines can call ioc.Post(...)
 	// on the same IO object.
@@ -218,13 +221,18 @@ func (p *poller) dispatch() {
 		}
 	}
 
+	// Run the handlers without holding lck: a handler may call Post itself (which locks), and other goroutines
+	// must be able to post meanwhile. What is posted from now on lands in the other buffer and is dispatched by
+	// the next Poll (Post has written to the waker).
 	p.lck.Lock()
-	for _, handler := range p.posts {
+	p.posts, p.dispatching = p.dispatching[:0], p.posts
+	p.lck.Unlock()
+
+	for i, handler := range p.dispatching {
 		handler()
+		p.dispatching[i] = nil
 		atomic.AddInt64(&p.pending, -1)
 	}
-	p.posts = p.posts[:0]
-	p.lck.Unlock()
 }
 
 func (p *poller) SetRead(slot *Slot) error {
